@@ -26,9 +26,8 @@ def scratch(patch=None):
         s = os.path.join("/repo", sub)
         (shutil.copytree if os.path.isdir(s) else shutil.copy)(s, os.path.join(d, sub))
     if patch:
-        rc, out = sh(["git", "apply", "--whitespace=nowarn", "-p1", "--directory", ".", patch], cwd=d)
+        rc, out = sh(["git", "apply", "--whitespace=nowarn", "-p1", patch], cwd=d)
         if rc != 0:
-            # not a git repo: use patch(1)
             rc, out = sh("patch -p1 --binary < %s" % patch, cwd=d)
         if rc != 0:
             shutil.rmtree(d)
@@ -52,11 +51,11 @@ def ingest(prop, wt, name):
     name = name or prop
     dst = os.path.join(SEEDED, name)
     os.makedirs(dst, exist_ok=True)
-    rc, diff = sh(["git", "-C", wt, "diff", "--", "src"])
-    if not diff.strip():
-        raise SystemExit("worktree has no source change")
     patch = os.path.join(dst, "patch.diff")
-    open(patch, "w", newline="").write(diff)
+    with open(patch, "wb") as f:  # bytes: the sources use CRLF line endings
+        subprocess.run(["git", "-C", wt, "diff", "--", "src"], stdout=f, check=True)
+    if os.path.getsize(patch) == 0:
+        raise SystemExit("worktree has no source change")
     demos = glob.glob(os.path.join(wt, "demo_*.py"))
     if not demos:
         raise SystemExit("no demo_*.py in worktree")
